@@ -303,7 +303,7 @@ def run(ctx):
     filt = [n for n in walk_no_nested(v.node) if isinstance(n, ast.Assign) and norm(n.targets[0]) == "vars2"
             and isinstance(n.value, ast.ListComp)]
     cat = [n for n in walk_no_nested(v.node) if isinstance(n, ast.Assign) and norm(n.targets[0]) == "output['cbvars']"]
-    ok = len(filt) == 1 and norm(filt[0].value) == "[var for var in vars2 if var not in vars1]" and cat and \
+    ok = len(filt) == 1 and rules.norm_comp(filt[0].value) == "[v0 for v0 in vars2 if v0 not in vars1]" and cat and \
         filt[0].lineno < cat[0].lineno
     ctx.check(ok, f"{P}.DEDUP", v.site, "fields of 2 already taken from 1 are dropped before names are concatenated",
               "vars2 is not filtered by `not in vars1` before the combined names are built")
